@@ -109,7 +109,11 @@ def observe(path: str) -> Dict[str, Any]:
         if snap["snapshot_id"] == out["current"]:
             cur = []
             for fp, lo, hi in files:
-                t = pq.read_table(os.path.join(path, fp))
+                try:
+                    t = pq.read_table(os.path.join(path, fp))
+                except Exception as e:               # noqa: BLE001 - e.g. a reachable file that is no parquet file
+                    cur.append({"path": fp, "schema": [], "rows": [{"unreadable": type(e).__name__}], "lo": lo, "hi": hi})
+                    continue
                 cur.append({"path": fp, "schema": [(fl.name, str(fl.type), fl.nullable) for fl in t.schema],
                             "rows": t.to_pylist(), "lo": lo, "hi": hi})
             out["files"] = cur
@@ -159,7 +163,7 @@ def make_variant(rng, fields: List[Dict[str, Any]], name: str) -> Optional[Tuple
         return fs, 7
     if name == "required_key_dropped":
         for f in fs:
-            if not f["required"]:
+            if "required" in f and not f["required"]:
                 del f["required"]
         return fs, 1
     if name in ("reordered", "reordered_new_sid"):
@@ -187,7 +191,7 @@ def make_variant(rng, fields: List[Dict[str, Any]], name: str) -> Optional[Tuple
         return fs, rng.choice([1, 7])
     if name == "nullability":
         f = rng.choice(fs)
-        f["required"] = not f["required"]
+        f["required"] = not f.get("required", False)
         return fs, rng.choice([1, 7])
     if name == "extra":
         fs.append({"id": 9, "name": "z", "type": rng.choice(TYPES), "required": False})
@@ -464,7 +468,7 @@ def shrink_case(case: Dict[str, Any], root: str, key: str) -> Dict[str, Any]:
 
 # ---------------------------------------------------------------------------------- oracles
 def oracle_e2e(ctx) -> List[Tuple[Dict[str, Any], Dict[str, Any]]]:
-    ncases = 70 if ctx.tier == "quick" else 700
+    ncases = 70 if ctx.tier == "quick" else 2500
     runs = []
     stats = {"accepted": 0, "rejected": 0, "steps": 0, "filters": 0, "by_variant": {}}
     reported = set()
@@ -519,7 +523,7 @@ def oracle_cells(ctx) -> None:
     ctx.stats["cells"] = {"cases": n, **outcomes}
 
 
-def oracle_prebuilt(ctx) -> None:
+def oracle_prebuilt(ctx, only: Optional[str] = None) -> None:
     """Pre-built parquet files through append_files: divergent footers must be refused or harmless."""
     import pyarrow as pa
     import pyarrow.parquet as pq
@@ -537,19 +541,36 @@ def oracle_prebuilt(ctx) -> None:
         "renamed": pa.schema([pa.field("q", pa.int64(), True), base.field(1)]),
         "with_metadata": base.with_metadata({"k": "v"}),
     }
+    # the same rows in a format the read path does not read, and bytes that are no parquet file at all
+    other_formats = {"avro_file": FileFormat.AVRO, "orc_declared": FileFormat.ORC, "garbage_parquet": FileFormat.PARQUET}
     n = 0
-    for name, footer in footers.items():
+    for name in list(footers) + list(other_formats):
+        if only is not None and name != only:
+            continue
+        footer = footers.get(name, base)
         root = os.path.join(ctx.scratch, "prebuilt")
         shutil.rmtree(root, ignore_errors=True)
         t = create_table(root, Schema(schema_id=1, fields=copy.deepcopy(fields)))
         t.append_records([{"a": 1, "b": "x"}])
         os.makedirs(os.path.join(root, "data"), exist_ok=True)
-        cols = {}
-        for fl in footer:
-            cols[fl.name] = pa.array(["y"] if pa.types.is_string(fl.type) else [2], fl.type)
-        pq.write_table(pa.Table.from_arrays([cols[fl.name] for fl in footer], schema=footer), os.path.join(root, "data", "pre.parquet"))
-        df = DataFile(file_path="/data/pre.parquet", file_format=FileFormat.PARQUET, partition_values={}, record_count=1,
-                      file_size_in_bytes=os.path.getsize(os.path.join(root, "data", "pre.parquet")))
+        fname = "pre.parquet"
+        if name == "avro_file":
+            import fastavro
+            fname = "pre.avro"
+            with open(os.path.join(root, "data", fname), "wb") as fo:
+                fastavro.writer(fo, {"type": "record", "name": "r", "fields": [{"name": "a", "type": ["null", "long"]}, {"name": "b", "type": "string"}]},
+                                [{"a": 2, "b": "y"}])
+        elif name in ("orc_declared", "garbage_parquet"):
+            fname = "pre.orc" if name == "orc_declared" else "pre.parquet"
+            with open(os.path.join(root, "data", fname), "wb") as fo:
+                fo.write(b"ORC" + b"\x00" * 64)
+        else:
+            cols = {}
+            for fl in footer:
+                cols[fl.name] = pa.array(["y"] if pa.types.is_string(fl.type) else [2], fl.type)
+            pq.write_table(pa.Table.from_arrays([cols[fl.name] for fl in footer], schema=footer), os.path.join(root, "data", fname))
+        df = DataFile(file_path="/data/" + fname, file_format=other_formats.get(name, FileFormat.PARQUET), partition_values={}, record_count=1,
+                      file_size_in_bytes=os.path.getsize(os.path.join(root, "data", fname)))
         before = observe(root)
         n += 1
         ctx.count(1, ("prebuilt", name))
@@ -935,6 +956,14 @@ def replay(ctx, payload) -> int:
         if res["violations"]:
             for k, w in res["violations"]:
                 print("replay: STILL FAILS", k, "-", w)
+            return 1
+        print("replay: passes now")
+        return 0
+    if case.get("kind") == "prebuilt":
+        oracle_prebuilt(ctx, only=case["footer"])
+        if ctx.violations:
+            for v in ctx.violations:
+                print("replay: STILL FAILS", v["key"], "-", v["what"])
             return 1
         print("replay: passes now")
         return 0
